@@ -269,6 +269,40 @@ def slice_safety(ctx: Ctx, r: Roles, rule: str):
             ctx.unknown(rule, site, f"cannot establish {req!r} >= 0 at the slice", where=where(fi, st))
 
 
+def accounting(ctx: Ctx, r: Roles, rule: str):
+    """The byte counter that ends iteration for sized sources grows by exactly skip + N per yielded packet, once."""
+    fi = r.fi
+    b = r.builder(expand=True)
+    # the counter: the name compared with the total length in the loop's exit test
+    counter = None
+    for n in ast.walk(r.loop):
+        if isinstance(n, ast.Compare) and len(n.ops) == 1 and isinstance(n.ops[0], ast.Eq):
+            names = [dotted(n.left), dotted(n.comparators[0])]
+            if any(x and "total" in x for x in names):
+                counter = next((x for x in names if x and "total" not in x), None)
+    if counter is None:
+        ctx.note("no byte counter compared with a total length found (iteration ends by exhaustion only)")
+        return
+    n_aff = b.build(r.x_slice.slice.upper) - Aff.atom(r.P)
+    skip = Aff.atom("skip_header_bytes") if "skip_header_bytes" in fi.params else Aff.k(0)
+    incs = [st for st in fn_stmts(fi) if isinstance(st, (ast.AugAssign, ast.Assign)) and any(n is st for n in ast.walk(r.loop))
+            and any(dotted(t) == counter for t in ([st.target] if isinstance(st, ast.AugAssign) else st.targets))]
+    site = f"{GEN}::byte-accounting::{counter}"
+    total = Aff.k(0)
+    try:
+        for st in incs:
+            if not (isinstance(st, ast.AugAssign) and isinstance(st.op, ast.Add)):
+                ctx.unknown(rule, site, f"counter written by `{norm(st)}`")
+                return
+            total = total + b.build(st.value)
+    except Unsupported as e:
+        ctx.unknown(rule, site, str(e))
+        return
+    ctx.decide(total == skip + n_aff, rule, site, "counter grows by prefix + packet length per packet",
+               f"`{counter}` grows by {total!r} per iteration but {(skip + n_aff)!r} bytes of the source are consumed: the known-length "
+               f"exit fires early or never", where=where(fi, incs[0]) if incs else "")
+
+
 def refill_consistency(ctx: Ctx, r: Roles, rule: str):
     """Each refill loop `while A < X` that is followed by an exhaustion check `if A < Y: break` needs Y <= X:
     otherwise the generator stops although the loop exited because enough bytes were buffered."""
@@ -422,10 +456,17 @@ def framing_cases(ctx: Ctx, rule: str, *, truncation: bool, level: int):
     fi = prog.func(GEN)
     h = Harness(prog, source_externals(), max_steps=3_000_000)
     total = 0
-    size_sets = [[], [1], [1, 1], [4, 1, 9], [2, 300, 1], [65536], [1, 65536, 2]] if not truncation else [[3, 1, 6]]
+    size_sets = [[], [1], [1, 1], [4, 1, 9], [2, 300, 1], [65536], [1, 65536, 2], "zero-header", [8, 8, 8, 8], [512], [1024, 3]] \
+        if not truncation else [[3, 1, 6]]
     for skip in (0, 3):
         for sizes in size_sets:
-            full = mk_stream(sizes, skip)
+            if sizes == "zero-header":
+                # a valid packet whose six header octets are all zero (version 0, APID 0, CONTINUATION, count 0, 1 data byte)
+                full = mk_stream([2], skip) + bytes(skip) + ccsds_bytes(b"\x00", apid=0, flags=0, count=0) + \
+                    bytes([0xE1] * skip) + ccsds_bytes(b"\x07\x08", apid=9)
+                sizes = [2, 1, 2]
+            else:
+                full = mk_stream(sizes, skip)
             cuts = range(0, len(full) + 1) if truncation else [len(full)]
             if len(full) > 2000:
                 srcsel = 0
